@@ -868,16 +868,16 @@ def main(argv):
             run_programs(ck, hb, [unpct(o[2:]) for o in progs])
         ck.finish(META["level_text"])
     quick = ck.tier == "quick"
-    n = 300 if quick else 6000
+    n = 260 if quick else 6000
     hs = CORPUS + [gen_history(ck.rng) for _ in range(n)]
     ck.correspond(hb, db, hs, label="expr", ubsan_is_violation=UBRE, timeout=600, env=ENV,
                   nontrivial=lambda h, obs: any(o.startswith("ok ") for o in obs))
     shape_probe(ck, db, hs)
     if hb:
-        progs = S_CORPUS + KNOWN_PROGRAMS + [gen_program(ck.rng) for _ in range(200 if quick else 3000)]
+        progs = S_CORPUS + KNOWN_PROGRAMS + [gen_program(ck.rng) for _ in range(160 if quick else 3000)]
         run_programs(ck, hb, progs)
-        semantic_oracle(ck, hb, 300 if quick else 3000)
-        program_semantic_oracle(ck, hb, 60 if quick else 1500)
+        semantic_oracle(ck, hb, 250 if quick else 3000)
+        program_semantic_oracle(ck, hb, 50 if quick else 1500)
     ck.finish(META["level_text"])
 
 
